@@ -101,9 +101,8 @@ def materialisation_step(ctx, tk, coh):
     # the early return is taken only when the geometry is not a view
     for r in fa.cfg.returns():
         if r.ast.value is None:
-            facts = fa.cfg.facts_at(r)
-            okr = any(isinstance(t.ast, ast.UnaryOp) and isinstance(t.ast.op, ast.Not) and "isinstance" in ast.unparse(t.ast) and truth for t, truth in facts) or \
-                any("isinstance" in ast.unparse(t.ast) and not isinstance(t.ast, ast.UnaryOp) and not truth for t, truth in facts)
+            from ..guards import facts_at as _facts
+            okr = any(t.k == "call" and t.a[0].k == "global" and t.a[0].a[0] == "isinstance" and not truth for t, truth, _ in _facts(fa, r))
             ctx.decide("C06.e", f, "materialisation is skipped only when the geometry is not a lazy view", True if okr else None, node=r.ast, key="early-return", engine="E1")
     # new data = old data gathered at the indices that come with the new geometry; flag set to True
     for n in stores["__data"]:
@@ -126,8 +125,8 @@ def materialisation_step(ctx, tk, coh):
     ba = ctx.fa(b)
     for n in ba.cfg.stmts():
         if n.kind == "stmt" and isinstance(n.ast, ast.Assign) and isinstance(n.ast.targets[0], ast.Attribute) and n.ast.targets[0].attr == "is_contigous":
-            facts = ba.cfg.facts_at(n)
-            isview = [truth for t, truth in facts if "isinstance" in ast.unparse(t.ast)]
+            from ..guards import facts_at as _facts
+            isview = [truth for t, truth, _ in _facts(ba, n) if t.k == "call" and t.a[0].k == "global" and t.a[0].a[0] == "isinstance"]
             v = n.ast.value
             if isview and isinstance(v, ast.Constant):
                 ctx.decide("C06.e", b, "a new array is flagged non-contiguous exactly when its geometry is a lazy view", (v.value is False) == isview[0],
